@@ -111,7 +111,7 @@ def check(run):
         z3 = "-solver" in opts
         n = nblocks // 3 if z3 else nblocks
         nest = blockgen.nested_rule_blocks()
-        texts = corpus + shipped + blockgen.snippet_blocks() + blockgen.mem_boundary_blocks() + (nest[(run.seed + oi) % 2::2] if quick else nest) + blockgen.gen_blocks(rng.getrandbits(32), n)
+        texts = corpus + shipped + blockgen.snippet_blocks() + blockgen.mem_boundary_blocks() + blockgen.deep_split_blocks() + (nest[(run.seed + oi) % 2::2] if quick else nest) + blockgen.gen_blocks(rng.getrandbits(32), n)
         if z3:
             texts = corpus + shipped + blockgen.snippet_blocks()[::3] + blockgen.mem_boundary_blocks()[oi % 4::4] + blockgen.gen_blocks(rng.getrandbits(32), n, max_len=14)
         res = pipeline.run_gasol(texts, opts, timeout=90 if z3 else 60)
